@@ -6,7 +6,7 @@ from ..build import params, construct, TABLE_KEY
 from .c01 import phase_args, PHASE_MODES
 
 
-def u_energy(ctx, kind, form="const", phase="none", loss=False):
+def u_energy(ctx, kind, form="const", phase="none", loss=False, warm=False):
     """One component: (vo, ii) produced by the component's own laws from (vi, io); then the real _solv_pwr_loss
     called exactly the way solve() calls it (scalar vi, no pstate)."""
     P = params(ctx, kind, "X", form, loss=loss)
@@ -33,6 +33,15 @@ def u_energy(ctx, kind, form="const", phase="none", loss=False):
         ctx.note("unstable")
         return
     ii_ = comp._solv_inp_curr([vi], vo_, io, ph, conf, {})
+    if warm:
+        # the same operating point has been evaluated before at ANOTHER ambient temperature (a second solve(ta=...) of the same
+        # system): nothing kept from that evaluation may show in the one checked here
+        ta0 = ctx.real("ta_before")
+        if kind == "Source":
+            comp._solv_pwr_loss(vo_ + Abs(P["rs"]) * ii_, vo_, ii_, ii_, ta0, ph, conf)
+        else:
+            comp._solv_pwr_loss(vi, vo_, ii_, io, ta0, ph, conf)
+        ctx.cover("warmed")
     if kind == "Source":
         # solve(): vi = v[n] + rs*ii, vo = v[n], ii = io = i[n]
         p, l, e, tr, tp = comp._solv_pwr_loss(vo_ + Abs(P["rs"]) * ii_, vo_, ii_, ii_, ta, ph, conf)
@@ -141,6 +150,8 @@ def instances(tier):
                     continue
                 out.append(Instance("C02", "c02:u_energy", dict(kind=kind, form=form, phase=ph), cover=["evaluated"],
                                     weight=5 if "t2" in form else (30 if form == "t1x3" else 1), time_limit=3000 if form == "t1x3" else None))
+                if form in ("const", "opaque") and ph in ("none", "unlisted"):
+                    out.append(Instance("C02", "c02:u_energy", dict(kind=kind, form=form, phase=ph, warm=True), cover=["evaluated", "warmed"]))
                 if kind in spec.LOADS:  # the same load configured as a loss (powered, dead, switched off)
                     out.append(Instance("C02", "c02:u_energy", dict(kind=kind, form=form, phase=ph, loss=True), cover=["evaluated"]))
     for form in ("const", "t1x2", "opaque") + (("ct2x2x2",) if tier == "thorough" else ()):  # (exact 2-D: ~4 min per instance)
@@ -154,6 +165,14 @@ def instances(tier):
         names = [n["name"] for n in shape["nodes"] if n["kind"] != "Source"]
         out.append(Instance("C02", "sys_common:s_run", dict(shape=shape, oracle="c02", opts={"rt": names[-2:], "ta": True}),
                             name="S/" + sid, uf=True, cover=["solved"], weight=20, max_paths=3000))
+    # the same operating point analysed before at another ambient temperature (state kept between analyses must not leak)
+    for sid in ("depth4", "pswitch-conv-pload", "vloss-table", "mux2") if tier == "quick" else list(curated()):
+        if sid not in curated() or sid == "neg-src-rs":
+            continue
+        shape = curated()[sid]
+        names = [n["name"] for n in shape["nodes"] if n["kind"] != "Source"]
+        out.append(Instance("C02", "sys_common:s_run", dict(shape=shape, oracle="c02", opts={"rt": names, "ta": True, "prior": [{"ta": "fresh"}]}),
+                            name="S/after-other-ambient/" + sid, uf=True, cover=["solved"], weight=25, max_paths=3000))
     # phased systems with thermal resistances: sleeping elements, dead branches, loads configured as a loss
     from ..shapes import N, S, phase_shapes
     ph = ["a", "b"]
